@@ -82,7 +82,8 @@ def traded_bucket_zero_second_fee(s):
     with_faults(s, E("usr2", {"k": "remove_bucket", "id": 1}))
     s.do(E("usr0", {"k": "withdraw_purchased", "id": 2}), "valid")
     s.do(E("usr1", {"k": "withdraw_purchased", "id": 1}), "valid")
-    # (b) the denomination switches between the two purchases
+    # (b) the denomination switches between the two purchases (the marketplace also holds the other fee denomination)
+    bucket(s, "usr4", 9, [["uusdcx", 1000]])
     listing(s, "usr0", 3, [["uatom", 7]], G(n=[["ujunox", 10000]]))
     bucket(s, "usr1", 3, [["ujunox", 10000]])
     buy(s, "usr1", 3, 3)                       # bucket 3 -> usr0: 9950 ujunox, fee 50 pending
@@ -361,6 +362,23 @@ def expiry_edges(s):
     s.do(E("usr0", {"k": "remove_bucket", "id": 1}), "valid")            # twice: refused
 
 
+def long_lived_listings(s):
+    """C16: the market / whitelist queries late in a near-maximum lifetime (the index window must span the
+    longest lifetime a listing can be finalized with); the query battery runs at the end of the script."""
+    ask = G(n=[["uosmo", 7]])
+    listing(s, "usr0", 1, [["uatom", 5]], ask, secs=1209600)                       # the maximum
+    listing(s, "usr0", 2, [["uatom", 5]], ask, secs=1209599, wl="usr1")
+    adv(s, 3600)
+    listing(s, "usr2", 3, [["uatom", 5]], ask, secs=1206000)                       # same expiry, finalized later
+    adv(s, 100000)
+    listing(s, "usr2", 4, [["uatom", 5]], ask, secs=1029601)
+    listing(s, "usr2", 5, [["uatom", 5]], ask, secs=604800)
+    listing(s, "usr2", 6, [["uatom", 5]], ask, secs=600)                           # long expired at the query
+    adv(s, 1105999, 999_999_999)                                                   # 1 ns before 1 and 3 expire; 2 expired 1 s ago
+    bucket(s, "usr1", 1, [["uosmo", 7]])
+    s.do(E("usr3", {"k": "fee_cycle"}), "valid")
+
+
 def competing_buyers(s):
     """C03: two buyers with identical buckets, whitelisted buyer, self purchase."""
     listing(s, "usr0", 1, [["uatom", 5]], G(n=[["uosmo", 7]], c=[[CW20A, 3]]), secs=3600)
@@ -618,6 +636,43 @@ def hostile_hooks(s):
     s.do({"t": "hostile_fail", "on": False}, "valid")
 
 
+def hostile_recreate(s):
+    """C18: forged-sender *create* calls naming ids that already belong to the forged sender, for records created on
+    every deposit path (coins, CW20 hook, NFT hook) and in every lifecycle state."""
+    ask = G(n=[["uosmo", 7]])
+    listing(s, "usr0", 1, [["uatom", 5]], ask, finalize=False)                                            # coins, preparing
+    nft_send(s, "usr0", COLL1, "1", {"k": "create_listing_cw721", "id": 2, "ask": ask, "wl": None})       # NFT hook, preparing
+    nft_send(s, "usr0", COLL1, "6", {"k": "create_listing_cw721", "id": 3, "ask": ask, "wl": None})       # NFT hook, finalized
+    s.do(E("usr0", {"k": "finalize", "id": 3, "secs": 3600}), "valid")
+    nft_send(s, "usr0", COLL2, "1", {"k": "create_listing_cw721", "id": 4, "ask": ask, "wl": None})       # NFT hook, sold
+    s.do(E("usr0", {"k": "finalize", "id": 4, "secs": 3600}), "valid")
+    cw20_send(s, "usr0", CW20A, 9, {"k": "create_listing_cw20", "id": 5, "ask": ask, "wl": None})         # CW20 hook, finalized
+    s.do(E("usr0", {"k": "finalize", "id": 5, "secs": 3600}), "valid")
+    bucket(s, "usr1", 1, [["uosmo", 7]])                                                                  # coins
+    nft_send(s, "usr1", COLL2, "2", {"k": "create_bucket_cw721", "id": 2})                                # NFT hook
+    cw20_send(s, "usr1", CW20A, 4, {"k": "create_bucket_cw20", "id": 3})                                  # CW20 hook
+    bucket(s, "usr1", 4, [["uosmo", 7]])
+    buy(s, "usr1", 4, 4)                                       # listing 4 -> usr1 (sold), bucket 4 -> usr0 (traded)
+    for hook in ("receive", "receive_nft"):
+        suf = "_cw20" if hook == "receive" else "_cw721"
+        targets = [("usr0", "listing", i) for i in (1, 2, 3, 5)] + [("usr1", "listing", 4), ("usr0", "listing", 4)]
+        targets += [("usr1", "bucket", i) for i in (1, 2, 3)] + [("usr0", "bucket", 4), ("usr1", "bucket", 4)]
+        for victim, kind, rid in targets:
+            inner = {"k": "create_%s%s" % (kind, suf), "id": rid}
+            if kind == "listing":
+                inner.update({"ask": ask, "wl": None})
+            m = {"k": hook, "sender": victim, "inner": inner}
+            if hook == "receive":
+                m["amount"] = 1
+            else:
+                m["token_id"] = "7"
+            s.do(E(HOSTILE, m), "hostile")
+    # every record is still where it was and leaves as usual
+    s.do(E("usr1", {"k": "withdraw_purchased", "id": 4}), "valid")
+    s.do(E("usr0", {"k": "remove_bucket", "id": 4}), "valid")
+    s.do(E("usr0", {"k": "delete_listing", "id": 2}), "valid")
+
+
 def hostile_freeze(s):
     """F1 (known finding): a forged top-up freezes the victim's bucket."""
     ask = G(n=[["uosmo", 7]])
@@ -704,6 +759,8 @@ SCRIPTS = {
     "coins_on_every_message": (world.default_cfg, coins_on_every_message, ()),
     "hostile_hooks": (world.default_cfg, hostile_hooks, ()),
     "hostile_freeze": (world.default_cfg, hostile_freeze, ("no_drain",)),
+    "hostile_recreate": (world.default_cfg, hostile_recreate, ()),
+    "long_lived_listings": (world.default_cfg, long_lived_listings, ()),
     "big_amounts": (big_amounts_cfg, big_amounts, ()),
     "queries_pages": (queries_pages_cfg, queries_pages, ("all_pages",)),
     "queries_many_records": (queries_many_records_cfg, queries_many_records, ("all_pages", "no_drain")),
